@@ -17,7 +17,7 @@ from ..geometry import (
     Point, Stretch, UnitEnum, Padding, VerticalAlignmentEnum,
     HorizontalAlignmentEnum, Alignment, Layout,
 )
-from ..utils import is_leaf
+from ..utils import is_leaf, unwrap_source_lines
 
 __all__ = [
     'DFXP_BASE_MARKUP', 'DFXP_DEFAULT_STYLE', 'DFXP_DEFAULT_STYLE_ID',
@@ -224,7 +224,7 @@ class DFXPReader(BaseReader):
         if isinstance(tag, NavigableString):
             # strips indentation whitespace only
             pattern = re.compile("^(?:[\n\r]+\\s*)?(.+)")
-            result = pattern.search(tag)
+            result = pattern.search(unwrap_source_lines(tag))
             if result:
                 # Escaping/unescaping xml entities is the responsibility of the
                 # xml parser used by BeautifulSoup in its initialization. The
